@@ -9,9 +9,9 @@ git -C /repo worktree add -q --detach $wt HEAD || exit 2
 trap 'git -C /repo worktree remove --force '$wt EXIT
 cd $wt
 cp $d/demo_test.go $pkg/zz_demo_test.go
-go test -vet=off -count=1 -run TestSeedDemo ./$pkg/ > /tmp/wt/confirm.a.$$ 2>&1; a=$?
+go test ${MODFLAG:-} -vet=off -count=1 -run TestSeedDemo ./$pkg/ > /tmp/wt/confirm.a.$$ 2>&1; a=$?
 git apply $d/patch.diff || { echo "patch does not apply"; exit 2; }
-go test -vet=off -count=1 -run TestSeedDemo ./$pkg/ > /tmp/wt/confirm.b.$$ 2>&1; b=$?
+go test ${MODFLAG:-} -vet=off -count=1 -run TestSeedDemo ./$pkg/ > /tmp/wt/confirm.b.$$ 2>&1; b=$?
 rm $pkg/zz_demo_test.go
 go build ./data/... ./models/... ./sim/... ./util/... ./conv/... ./io/json/... ./libopenwater/ ./cmd/ow-single/ > /tmp/wt/confirm.c.$$ 2>&1; c=$?
 n=$(go test -vet=off -count=1 -v ./... 2>/dev/null | grep -c '^--- PASS')
